@@ -21,7 +21,7 @@ GA = "1/1/1"
 # (cooldown, periodic_send, value type[, respond_to_read])
 CONFIGS: list[tuple[Any, ...]] = [(10, 0, "percentU8"), (10, 30, "percentU8"), (0, 30, "percentU8"), (0, 0, "percentU8"), (10, 0, "binary"), (10, 30, "binary"),
                                   (10, 0, "percentU8", False), (10, 5, "percentU8")]
-EVENTS = ["set:A", "set:B", "set:A:skip", "set:B:skip", "read", "init:B", "in-write:A", "DISCONNECT", "CONNECT", "+1", "+5", "+10", "+30"]
+EVENTS = ["set:A", "set:B", "set:A:skip", "set:B:skip", "read", "init:B", "in-write:A", "DISCONNECT", "CONNECT", "+1", "+5", "+10", "+30", "in-write:undecodable"]
 COARSE = ["set:A", "set:B", "+1", "+10"]
 HORIZON = 45.0
 T0 = 1000.0
@@ -88,6 +88,10 @@ def run_case(ci: int, seq: tuple[int, ...]) -> list[tuple[str, str]]:
                 elif ev == "in-write:A":
                     log.append((loop.time(), "in-write", "A"))
                     xknx.telegrams.put_nowait(Telegram(GroupAddress(GA), payload=GroupValueWrite(payload_of(cfg, "A")), source_address=IndividualAddress("1.1.9"), direction=TelegramDirection.INCOMING))
+                elif ev == "in-write:undecodable":
+                    # a frame on the address that the sensor's type cannot decode (three octets): it carries no value and changes nothing
+                    log.append((loop.time(), "in-garbage", ""))
+                    xknx.telegrams.put_nowait(Telegram(GroupAddress(GA), payload=GroupValueWrite(DPTArray((1, 2, 3))), source_address=IndividualAddress("1.1.9"), direction=TelegramDirection.INCOMING))
                 elif ev == "DISCONNECT":
                     if connected:
                         log.append((loop.time(), "disconnect", ""))
